@@ -86,6 +86,7 @@ class C06(Check):
                    'configuration->string mapping; it is checked in generated mode as a rider']
     PROBES = ('c06.generated-mode', 'c06.shipped-mode', 'c06.must-reject', 'c06.must-accept', 'c06.constant',
               'c06.undescribed-probed', 'c06.describe-repeated', 'c06.emitted-values-checked', 'c06.unexported-module',
+              'c06.export-configured',
               'c06.driver-glitch', 'c06.features-compared')
 
     def gen_case(self, rng, tier):
@@ -106,6 +107,12 @@ class C06(Check):
                     p['veto'] = None
             if len(specs) > 1 and rng.random() < 0.3:
                 specs[-1]['export'] = False
+            # the export property of single parameters given in the configuration (e.g. a section copied from
+            # another module): it renames, hides or shows the parameter - but never inside a module not exported
+            for s in specs:
+                for i, p in enumerate(s['params']):
+                    if p['name'] not in PREDEF and p.get('constant') is None and rng.random() < (0.5 if not s.get('export', True) else 0.1):
+                        p['cfg_export'] = rng.choice([True, True, f'_cfg{i}', False])
             # features, and modules whose implementing class is derived from the class of another module
             for s in specs:
                 if rng.random() < 0.25:
@@ -165,6 +172,8 @@ class C06(Check):
         if not isinstance(desc, dict):
             return
         # what exists inside the node but is not described
+        if any(p.get('cfg_export') is not None for s in shape.get('specs', ()) for p in s['params']):
+            sim.count('c06.export-configured')
         hidden = ctx['hidden'] = []
         for mname, mobj in secnode.modules.items():
             if mname not in desc['modules']:
@@ -249,7 +258,9 @@ class C06(Check):
                     mobj = secnode.modules[hm]
                     anames = list(mobj.accessibles) or ['value']
                     ha = rng.choice(anames)
-                    target = f'{hm}:{rng.choice([ha, "_" + ha, "value"])}'
+                    cfgnames = [p['cfg_export'] for s in shape.get('specs', ()) if s['name'] == hm for p in s['params']
+                                if isinstance(p.get('cfg_export'), str)]
+                    target = f'{hm}:{rng.choice([ha, "_" + ha, "value"] + cfgnames)}'
                 else:
                     target = f'{hm}:{rng.choice([ha, "_" + ha] if hk == "accessible" else [ha])}'
                     if hk == 'internal-name' and ha in PREDEF:
@@ -446,7 +457,7 @@ class C06(Check):
                                          f'{wantf} (class chain {ctx["impl"].get(s["name"])})'))
                 names = set(md['accessibles'])
                 for p in s['params']:
-                    exp = p['export']
+                    exp = p['export'] if p.get('cfg_export') is None else p['cfg_export']
                     name = p['name'] if p['name'] in PREDEF else '_' + p['name']
                     if isinstance(exp, str):
                         name = exp
